@@ -394,52 +394,67 @@ func c12burst(c *core.Ctx) {
 	}
 	n := 0
 	for _, kind := range []string{"pub1", "pub2", "sub", "unsub", "ping"} {
-		for inflight := 1; inflight <= 36; inflight++ {
-			for _, order := range []string{"oldest", "newest"} {
-				if kind == "ping" && order == "newest" {
-					continue // PINGRESPs carry no identifier: each answers the oldest PINGREQ
-				}
-				n++
-				name := fmt.Sprintf("sender-burst: %d x %s outstanding, acknowledged %s first", inflight, kind, order)
-				if c.Replay != nil {
-					if c.Replay.Scenario != name {
+		for _, done := range []int{0, 3, 5} {
+			for inflight := 1; inflight <= 36; inflight++ {
+				for _, order := range []string{"oldest", "newest"} {
+					if kind == "ping" && order == "newest" {
+						continue // PINGRESPs carry no identifier: each answers the oldest PINGREQ
+					}
+					// (after completed requests the queue's head is not 0: it grows while wrapped)
+					if done > 0 && (kind == "ping" || (!c.Thorough() && (inflight < 15 || inflight > 20 || order == "newest"))) {
 						continue
 					}
-				} else {
-					if c.NShards > 1 && n%c.NShards != c.Shard {
-						continue
+					n++
+					name := fmt.Sprintf("sender-burst: %d x %s outstanding, acknowledged %s first", inflight, kind, order)
+					if done > 0 {
+						name = fmt.Sprintf("sender-burst: %d x %s completed one by one, then %d outstanding, acknowledged %s first", done, kind, inflight, order)
 					}
-					if !c.Thorough() && (inflight > 33 || (inflight < 14 && inflight%4 != 0)) {
-						continue
+					if c.Replay != nil {
+						if c.Replay.Scenario != name {
+							continue
+						}
+					} else {
+						if c.NShards > 1 && n%c.NShards != c.Shard {
+							continue
+						}
+						if !c.Thorough() && (inflight > 33 || (inflight < 14 && inflight%4 != 0)) {
+							continue
+						}
 					}
-				}
-				if c.Expired() || c.HasViolation() {
-					return
-				}
-				var hist []int
-				for i := 0; i < inflight; i++ {
-					hist = append(hist, idx["api:"+kind])
-				}
-				acks := map[string][]string{"pub1": {"PUBACK"}, "pub2": {"PUBREC", "PUBCOMP"}, "sub": {"SUBACK"}, "unsub": {"UNSUBACK"}, "ping": {"PINGRESP"}}[kind]
-				for _, a := range acks {
-					for i := 0; i < inflight; i++ {
-						hist = append(hist, idx["ack:"+a+":"+order])
-					}
-				}
-				v, _, steps := runSender(ops, hist, c.Replay != nil)
-				if c.Replay != nil {
-					fmt.Println("replay:", name, "\n  violation:", v)
-					c.Rep.Scenarios++
-					return
-				}
-				c.Rep.Executions++
-				c.Rep.Evaluations++
-				c.Rep.States++
-				c.Rep.Nontrivial++
-				c.Rep.Transitions += int64(steps)
-				if v != "" {
-					if c.Violate("C12 sender-burst :: "+violClass(v), core.Replay{Scenario: name, Message: v}) {
+					if c.Expired() || c.HasViolation() {
 						return
+					}
+					var hist []int
+					acks := map[string][]string{"pub1": {"PUBACK"}, "pub2": {"PUBREC", "PUBCOMP"}, "sub": {"SUBACK"}, "unsub": {"UNSUBACK"}, "ping": {"PINGRESP"}}[kind]
+					for i := 0; i < done; i++ {
+						hist = append(hist, idx["api:"+kind])
+						for _, a := range acks {
+							hist = append(hist, idx["ack:"+a+":oldest"])
+						}
+					}
+					for i := 0; i < inflight; i++ {
+						hist = append(hist, idx["api:"+kind])
+					}
+					for _, a := range acks {
+						for i := 0; i < inflight; i++ {
+							hist = append(hist, idx["ack:"+a+":"+order])
+						}
+					}
+					v, _, steps := runSender(ops, hist, c.Replay != nil)
+					if c.Replay != nil {
+						fmt.Println("replay:", name, "\n  violation:", v)
+						c.Rep.Scenarios++
+						return
+					}
+					c.Rep.Executions++
+					c.Rep.Evaluations++
+					c.Rep.States++
+					c.Rep.Nontrivial++
+					c.Rep.Transitions += int64(steps)
+					if v != "" {
+						if c.Violate("C12 sender-burst :: "+violClass(v), core.Replay{Scenario: name, Message: v}) {
+							return
+						}
 					}
 				}
 			}
